@@ -349,3 +349,63 @@ Definition sym_sign (c : scase) : res (list env_view) :=
 
 Definition sign_case_ok (c : scase) : bool :=
   res_matches (list_eqb env_view_eqb) (sym_sign c) (sc_obs c).
+
+(* ------------------------------------------------------------------ *)
+(* Signing histories: the same advertisement value signed, changed, signed again.
+   Sign / SignWithExtendedProviders assign ad.Signature and every p.Signature
+   unconditionally, so signatures already present never influence the result. *)
+
+Definition erase_psig {pubkey sigt} (p : provider pubkey sigt) : provider pubkey sigt := set_psig p None.
+Definition erase_sigs {pubkey sigt} (a : ad pubkey sigt) : ad pubkey sigt :=
+  Ad (a_prev a) (a_provider a) (a_addrs a) None (a_entries a) (a_ctx a) (a_md a) (a_rm a)
+     (option_map (fun x => Ext (map erase_psig (x_providers x)) (x_override x)) (a_ext a)).
+
+(* new values, the signatures the struct carried so far kept position by position (what
+   assigning fields of a Go struct, or of the entries of its list, leaves behind) *)
+Fixpoint keep_psigs {pubkey sigt} (cur new : list (provider pubkey sigt)) : list (provider pubkey sigt) :=
+  match new with
+  | [] => []
+  | n :: nr =>
+    match cur with
+    | c :: cr => set_psig n (p_sig c) :: keep_psigs cr nr
+    | [] => n :: keep_psigs [] nr
+    end
+  end.
+
+Definition with_values {pubkey sigt} (cur new : ad pubkey sigt) : ad pubkey sigt :=
+  Ad (a_prev new) (a_provider new) (a_addrs new) (a_sig cur) (a_entries new) (a_ctx new) (a_md new) (a_rm new)
+     match a_ext new with
+     | None => None
+     | Some xn => Some (Ext (keep_psigs (match a_ext cur with Some xc => x_providers xc | None => [] end) (x_providers xn))
+                            (x_override xn))
+     end.
+
+Inductive hstep :=
+| HValues (v : sad)                                  (* fields assigned; v carries no signatures *)
+| HSign (plain : bool) (key : N) (fetch : list (bytes * N)) (obs : res (list env_view))
+| HVerify (obs : res N).
+
+Record hcase := HC {
+  hc_H : list (bytes * bytes);
+  hc_ids : list (bytes * N);
+  hc_init : sad;
+  hc_steps : list hstep
+}.
+
+Fixpoint run_history (Ht : list (bytes * bytes)) (ids : list (bytes * N)) (cur : sad) (steps : list hstep) : bool :=
+  match steps with
+  | [] => true
+  | HValues v :: r => run_history Ht ids (with_values cur v) r
+  | HSign plain key ft obs :: r =>
+    let fetch := fun s => match assocb s ft with Some k => Ok k | None => Err EFetch end in
+    let res := if plain then sign_plain Sym.pub Sym.sign (table_H Ht) cur key
+               else sign_with_eps Sym.pub Sym.sign (table_H Ht) cur key fetch in
+    res_matches (list_eqb env_view_eqb) (a <- res ;; Ok (view_ad a)) obs &&
+    (* Sign refuses before touching the value; the histories contain no other failing signing *)
+    run_history Ht ids (match res with Ok a => a | _ => cur end) r
+  | HVerify obs :: r =>
+    res_matches N.eqb (verify_gen Sym.verify Sym.peer_id Sym.peerid_eqb (table_H Ht) (ids_decode ids) true cur) obs &&
+    run_history Ht ids cur r
+  end.
+
+Definition history_case_ok (c : hcase) : bool := run_history (hc_H c) (hc_ids c) (hc_init c) (hc_steps c).
